@@ -226,6 +226,9 @@ func Judge(sc *Scenario, mr *ModelRun, out *Outcome) []Finding {
 			add("C01", "action:"+kn(sc.Root), "run returned action %q, post returned %q (want %q)", out.Action, scr.Post, want)
 		}
 	}
+	if len(out.Events) == 0 && !out.ErrNil && out.CancelSeq < 0 && sc.Inject.Kind == "" {
+		add("C04", "error-without-any-callback", "the run returned the error %q although not a single user callback was invoked (and the context is alive): no phase on its path failed", out.ErrText)
+	}
 	// --- C04: transparency and fail-stop (observation based) ---------------------------
 	if n := len(out.Events); n > 0 && out.CancelSeq < 0 {
 		var lastEv *Event
